@@ -1,2 +1,3 @@
 import OdcGeo.Drv.C14
-def main : IO Unit := OdcGeo.driverMain OdcGeo.C14.Drv.run
+import OdcGeo.Drv.C14Args
+def main : IO Unit := OdcGeo.driverMain OdcGeo.C14.Drv.runAll
